@@ -483,7 +483,7 @@ fn main() {
         }
     }
     // deep-lag probes: a leader runs K frames ahead of one or two laggards, who then catch up; repeated
-    for k in [5usize, 31, 32, 33, 63, 64, 65, 127, 128, 129, 300] {
+    for k in [5usize, 31, 32, 33, 63, 64, 65, 127, 128, 129, 300, 65535, 65536, 65537] {
         for laggards in [1usize, 2] {
             let acts = deep_lag_acts(k, laggards);
             let case = json!({"sys":"bus_deep_lag","k":k,"laggards":laggards});
@@ -512,7 +512,7 @@ fn main() {
         }
     }
     ctx.rule("many-output probes: M in {8, 33, 100, 255, 256, 257, 300} outputs attached at once, output i pulls i mod 40 frames, M/2 late joiners attached mid-stream, every third output dropped, the rest catch up, further drops interleaved with pulls; over a finite source of 30 frames (exhausted mid-way) and one of 100; same checks after every step");
-    ctx.rule("deep-lag probes: a leader runs K frames ahead (K in 5,31,32,33,63,64,65,127,128,129,300) of one or two laggards who then catch up, three rounds, same checks after every step");
+    ctx.rule("deep-lag probes: a leader runs K frames ahead (K in 5,31,32,33,63,64,65,127,128,129,300 and the 16-bit boundary 65535,65536,65537) of one or two laggards who then catch up, three rounds, same checks after every step");
     ctx.rule(&format!("soak probes: one deterministic history of {soak_steps} steps (sends, pull bursts, drops chosen by a fixed rule from the step number and the reference state) with up to 1, 2, 3 and 6 live outputs on a single bus, same checks after every step (single executions, labelled)"));
     let c = BusModel { ctx }.checker().threads(1).spawn_bfs().join();
     ctx.set("merged_unique_states", json!(c.unique_state_count()));
